@@ -22,7 +22,10 @@ RULE = ('argument-like content built from a token alphabet (characters, separato
         'the same minus empty parts; with max_split a validity predicate (<= n+1 parts, ordered, '
         'disjoint, separator-free except the last, only separators between them); node and list '
         'positions anchored in the source; key-value = split at commas then at the first equals '
-        'sign. Non-trivial = >= 2 separators of which one is protected inside a child, or adjacent '
+        'sign. Argument views: get_content_nodelist() by the documented double-group rule, '
+        'parse_content_as_keyval() = parse_keyval_content() of it; filter() = order-preserving '
+        'sub-list under 24 flag sets; get_content_as_chars() against a recursive model. '
+        'Non-trivial = >= 2 separators of which one is protected inside a child, or adjacent '
         'separators, or max_split smaller than the separator count; distinct by (list, options).')
 ASSUMPTIONS = ['top-level chars-node spans are taken from the strict parse (C01 covers them)',
                'keys are made of characters only']
@@ -269,6 +272,14 @@ def check_split_node(s, nl, opt, res, case):
                  '%d separator node(s) are missing from the parts but only %d split(s) were made '
                  '(max_split=%r): the unsplit remainder lost nodes' % (used_seps, len(parts) - 1,
                                                                       max_split), case)
+        return
+    if max_split is not None and max_split >= 1 and nsep >= 1 and len(parts) < 2:
+        # "at most n splits ... the remainder unsplit": with n >= 1 and a separator present the
+        # first separator does split (how many more of the n are used is left open: the
+        # statement says "at most")
+        res.fail('c18:split_at_node:no-split-although-allowed:%s' % tag,
+                 'max_split=%d and %d separator node(s), but the list was not split' %
+                 (max_split, nsep), case)
         return
     if max_split is None and len(parts) != nsep + 1:
         res.fail('c18:split_at_node:part-count:%s' % tag,
